@@ -236,6 +236,15 @@ def _search(rec, ctx):
             for v in PUNCT:
                 check(rec, {"src": "".join(toks[:i] + [v, " "] + toks[i:]), "stream": "diagnostic-neighbourhood"})
 
+    # deep nests whose innermost level is closed by the wrong bracket (or not at all): rejected, and quickly
+    OPEN = [("$(a ", ")"), ("![a ", "]"), ("$[a ", "]"), ("!(a ", ")"), ("@$(a ", ")"), ("(", ")"), ("[", "]"), ("{", "}"), ("f(", ")"), ("$(echo @(", "))"), ("f!(", ")"), ("${", "}"), ("(a, ", ")")]
+    for o, c in ctx.shard(OPEN):
+        for d in (12, 18, 24):
+            for wrong in ("]", ")", "}", "", " 1 1", " ="):
+                if wrong == c[:1]:
+                    continue
+                check(rec, {"src": ("x = " if o[0] in "([{f" else "") + o * d + "a" + wrong + c * d + "\n", "stream": "deep-nest-wrong-closer"})
+
     # conversion names of f-string fields: every string over {s, r, a, z} up to length 3, plus a few words
     import itertools
 
